@@ -167,4 +167,41 @@ CLAIMS = {
         "note": _TB + "slice::get and std iterator adaptors do not panic.",
         "technique": "panic-site inventory over call-graph reachability (polymorphic in quick, monomorphic in thorough)",
     },
+    "C04": {
+        "text": "Claimed (shape compatibility and widening only): for every Serde data-model category the top-level value kinds "
+                "that the serializer method can produce (extracted as constructor terms from the MIR) are accepted by the "
+                "deserializer method serde pairs with it (accept maps extracted over 15 input shapes), including the cons "
+                "shapes for Some / variants and the payload routing of VariantAccess; numeric serializer methods widen "
+                "with From only and every stored number representation reaches the visitor method of its own payload "
+                "type. These are necessary for any value to deserialize from its own serialization; identity on values, "
+                "shape-ambiguous nestings and the text path are not decided.",
+        "note": _TB + "serde's derived impls pair serialize_x with deserialize_x.",
+        "technique": "constructor-term extraction and accept-map extraction by abstract evaluation of MIR; inclusion check "
+                     "per data-model category",
+    },
+    "C14": {
+        "text": "Claimed: the constructor term returned or pushed by each of the 44 serializer / collector methods equals the "
+                "term transcribed from the crate documentation and C14's statement (sequences list(items), tuples "
+                "Vector(items), maps/structs list of cons(key|symbol(field), ser(value)), None Null, Some cons(ser(x), Null), "
+                "unit Null, newtype ser(x), variants symbol / cons(symbol, ..), integers from:i64/u64 of a From-widened "
+                "value ...); since every child goes through ser(x) these level-one terms compose to nested shapes. The "
+                "accept map of every deserialize_* method over 15 input shapes equals the documented one (vector where a "
+                "sequence is expected, list where a tuple is expected, wrong kinds -> error) and ListAccess/MapAccess "
+                "reject improper tails and non-pair entries.",
+        "note": _TB + "The transcription in tables/serde_shapes.json is reviewed by hand against serde-lexpr/src/lib.rs; a "
+                "behaviour-preserving rewrite of a serializer method into a different constructor expression (e.g. "
+                "Value::list(vec![x]) for Value::cons(x, Null)) would need the table updated.",
+        "technique": "constructor-term extraction by abstract evaluation of MIR compared with a documented term table; "
+                     "accept-map extraction",
+    },
+    "C18": {
+        "text": "Claimed (totality and error category; not the re-serialisation fixed point): the complete outcome map of the "
+                "29 deserialize_* methods over 15 input shapes (11 kinds, three number representations, three cdr shapes) "
+                "contains only visitor calls and invalid_value errors and no panic path; the access objects answer "
+                "improper tails, non-pair entries and exhausted cursors with Err / Ok(None); panicking constructs in the "
+                "deserializer are discharged or reviewed (one expect reachable only by violating serde's MapAccess "
+                "protocol); every ErrorImpl built on this path is a Message, which classify() maps to Category::Data.",
+        "note": _TB + "Visitor implementations (derived / std) follow the MapAccess protocol and do not panic themselves.",
+        "technique": "outcome-map extraction by abstract evaluation of MIR, panic-site inventory, constructor-site audit",
+    },
 }
